@@ -18,8 +18,8 @@ package main
 import (
 	"bufio"
 	"bytes"
-	"encoding/hex"
 	"crypto/sha256"
+	"encoding/hex"
 	"fmt"
 	"strconv"
 	"strings"
@@ -69,13 +69,13 @@ type sfeLeaf struct {
 }
 
 type sfeOut struct {
-	value                      uint64
-	vcommit, asset, acommit    []byte
-	script                     []byte
-	ecdh, rp, sp               []byte
-	blindpk                    []byte
-	blinder                    uint32
-	vproof, aproof             []byte
+	value                   uint64
+	vcommit, asset, acommit []byte
+	script                  []byte
+	ecdh, rp, sp            []byte
+	blindpk                 []byte
+	blinder                 uint32
+	vproof, aproof          []byte
 }
 
 type sfeOrc struct {
@@ -89,12 +89,12 @@ type sfeOp struct {
 	txid                     []byte
 	index, seq, hlock, tlock uint32
 	wu                       *transaction.TxOutput
-	kind    string
-	k       int
-	sig, pk []byte
-	fmtOK   bool
-	rs, ws  []byte
-	leaf    []byte
+	kind                     string
+	k                        int
+	sig, pk                  []byte
+	fmtOK                    bool
+	rs, ws                   []byte
+	leaf                     []byte
 }
 
 type sfeCase struct {
@@ -910,12 +910,17 @@ func sfePlanInput(r *Rng, tmpl int, small bool) *sfePlanIn {
 		n, m = 3, 2
 	}
 	pl.m = m
-	uncompressed := (tmpl == tP2PKH || tmpl == tP2SHMS) && r.Chance(12)
+	uncompressed := (tmpl == tP2PKH || tmpl == tP2SHMS) && r.Chance(25)
+	hybrid := uncompressed && r.Chance(35)
 	for i := 0; i < n; i++ {
 		k := sfeKey(r)
 		pl.privs = append(pl.privs, k)
 		if uncompressed {
-			pl.pubs = append(pl.pubs, k.PubKey().SerializeUncompressed())
+			pub := k.PubKey().SerializeUncompressed()
+			if hybrid {
+				pub[0] = 0x06 | (pub[64] & 1) // hybrid encoding: 06 / 07 by the parity of y
+			}
+			pl.pubs = append(pl.pubs, pub)
 		} else {
 			pl.pubs = append(pl.pubs, k.PubKey().SerializeCompressed())
 		}
@@ -1410,7 +1415,6 @@ func sfeGenCase(r *Rng, v2 bool, seqno int) *sfeCase {
 	c.ops = append(c.ops, sfeOp{kind: "X"})
 	return c
 }
-
 
 // Scenario: inputs are added to a packet that already carries signatures (psetv2 only).
 // Some input is signed with an ANYONECANPAY type, then Updater.AddInputs brings one more input,
